@@ -110,8 +110,13 @@ func buildStream(c *core.Ctx, maxItems int) ([]byte, []sent) {
 			}
 			if l >= 4 && c.Chance("text.multibyte", 1, 2) {
 				// two-, three- and four-byte sequences at their range limits, and U+FFFD itself
-				mb := c.PickStr("text.mb", "é", "\u07ff", "\u0800", "\ufffd", "\uffff", "\ud7ff", "\ue000", "\U00010000", "\U0010ffff", "\u00a0")
-				copy(b[c.Int("text.mbAt", 0, l-len(mb)):], mb)
+				mb := c.PickStr("text.mb", "\ufeff", "é", "\u07ff", "\u0800", "\ufffd", "\uffff", "\ud7ff", "\ue000", "\U00010000", "\U0010ffff", "\u00a0")
+				at := c.Int("text.mbAt", 0, l-len(mb))
+				if mb == "\ufeff" && c.Bool("text.bomFirst") {
+					at = 0 // a byte-order mark is an ordinary code point of the string, also in first position
+					c.Probe("text starting with U+FEFF")
+				}
+				copy(b[at:], mb)
 				if mb == "\ufffd" {
 					c.Probe("valid text containing U+FFFD sent")
 				}
